@@ -85,33 +85,67 @@ Theorem Databricks_formfeed_refuted :
 Proof. exists [12], []. split; [exact I|]. split; [vm_compute; discriminate|vm_compute; reflexivity]. Qed.
 
 (* ---------- ClickHouse ---------- *)
-Theorem roundtrip_ClickHouse_partial : forall s rest, ~ In 92 s -> no_quote_start 39 rest ->
-  lex_ch (emit_of kind_ClickHouse s ++ rest) = Some (s, rest).
+(* the emitter escapes the backslash first, then doubles the quote (repaired in /repo by the commit
+   "fix: string literals for ClickHouse escape the backslash") *)
+(* ClickHouse:  '%s' % s.replace('\\', '\\\\').replace("'", "''") *)
+Definition proposed_ClickHouse : emit_kind := Wrap [39] [39] [([92], [92; 92]); ([39], [39; 39])].
+
+Definition ch_fixed_esc (c : N) : str :=
+  if c =? 92 then [92; 92] else if c =? 39 then [39; 39] else [c].
+
+Lemma ch_fixed_esc_ok : forall c, esc_from [([92], [92; 92]); ([39], [39; 39])] [c] = ch_fixed_esc c.
 Proof.
-  intros s rest Hs Hr. change kind_ClickHouse with quote_doubling.
-  rewrite emit_quote_doubling. apply ch_roundtrip_no_backslash; auto.
+  intros c. unfold ch_fixed_esc.
+  destruct (N.eqb_spec c 92) as [->|H92]; [reflexivity|].
+  destruct (N.eqb_spec c 39) as [->|H39]; [reflexivity|].
+  unfold esc_from, step_fn. simpl. neq c 92. simpl. neq c 39. reflexivity.
 Qed.
 
-(* a backslash is not escaped: it swallows the closing quote (the literal never ends) ... *)
-Theorem ClickHouse_backslash_refuted :
+Lemma ch_fixed_char : forall c tail, ch_body (ch_fixed_esc c ++ tail) = push c (ch_body tail).
+Proof.
+  intros c tail. unfold ch_fixed_esc.
+  destruct (N.eqb_spec c 92) as [->|H92]; [reflexivity|].
+  destruct (N.eqb_spec c 39) as [->|H39]; [reflexivity|].
+  simpl. neq c 39. neq c 92. reflexivity.
+Qed.
+
+Theorem proposed_ClickHouse_roundtrip : forall s rest, no_quote_start 39 rest ->
+  lex_ch (emit_of proposed_ClickHouse s ++ rest) = Some (s, rest).
+Proof.
+  intros s rest H. unfold proposed_ClickHouse. rewrite emit_wrap_chars by reflexivity.
+  rewrite (flat_map_ext _ _ ch_fixed_esc_ok). simpl. rewrite <- app_assoc. simpl.
+  apply (body_roundtrip ch_body ch_fixed_esc (fun _ => True) 39); auto.
+  - intros. apply ch_fixed_char.
+  - apply close_39. intros t. reflexivity.
+  - apply Forall_True.
+Qed.
+
+
+Theorem roundtrip_ClickHouse : forall s rest, no_quote_start 39 rest ->
+  lex_ch (emit_of kind_ClickHouse s ++ rest) = Some (s, rest).
+Proof.
+  intros s rest Hr. change kind_ClickHouse with proposed_ClickHouse. apply proposed_ClickHouse_roundtrip, Hr.
+Qed.
+
+Theorem roundtrip_ClickHouse_partial : forall s rest, ~ In 92 s -> no_quote_start 39 rest ->
+  lex_ch (emit_of kind_ClickHouse s ++ rest) = Some (s, rest).
+Proof. intros s rest _ Hr. apply roundtrip_ClickHouse, Hr. Qed.
+
+(* why quote doubling alone (the emitter before the repair) was not enough for this lexer:
+   a backslash swallows the closing quote ... *)
+Theorem ClickHouse_quote_doubling_alone_refuted :
   exists s rest, no_quote_start 39 rest /\
-    lex_ch (emit_of kind_ClickHouse s ++ rest) <> Some (s, rest).
+    lex_ch (emit_of quote_doubling s ++ rest) <> Some (s, rest).
 Proof. exists [92], []. split; [exact I|]. vm_compute. discriminate. Qed.
 
-(* ... or the literal ends somewhere inside the SQL text that follows it:
-   s = a\    rest =  OR 'x' = 'x'     is read as the value  a' OR   followed by  x' = 'x'  *)
-Theorem ClickHouse_backslash_changes_structure :
+(* ... or the literal ends somewhere inside the SQL text that follows it *)
+Theorem ClickHouse_quote_doubling_alone_changes_structure :
   let s := [97; 92] in
   let rest := [32; 79; 82; 32; 39; 120; 39; 32; 61; 32; 39; 120; 39] in
   no_quote_start 39 rest /\
-  lex_ch (emit_of kind_ClickHouse s ++ rest) =
+  lex_ch (emit_of quote_doubling s ++ rest) =
     Some ([97; 39; 32; 79; 82; 32], [120; 39; 32; 61; 32; 39; 120; 39]).
 Proof. split; [vm_compute; discriminate|vm_compute; reflexivity]. Qed.
-
-(* and a backslash followed by a letter is data corruption:  a\nb (4 characters) is read as a LF b *)
-Theorem ClickHouse_backslash_changes_data :
-  lex_ch (emit_of kind_ClickHouse [97; 92; 110; 98]) = Some ([97; 10; 98], []).
-Proof. vm_compute. reflexivity. Qed.
 
 (* ---------- all dialects of the generated table ---------- *)
 Theorem all_dialects_have_lexer :
@@ -152,39 +186,6 @@ Proof.
 Qed.
 
 (* ---------- the proposed repairs, checked against the same Spec lexers ---------- *)
-(* ClickHouse:  '%s' % s.replace('\\', '\\\\').replace("'", "''") *)
-Definition proposed_ClickHouse : emit_kind := Wrap [39] [39] [([92], [92; 92]); ([39], [39; 39])].
-
-Definition ch_fixed_esc (c : N) : str :=
-  if c =? 92 then [92; 92] else if c =? 39 then [39; 39] else [c].
-
-Lemma ch_fixed_esc_ok : forall c, esc_from [([92], [92; 92]); ([39], [39; 39])] [c] = ch_fixed_esc c.
-Proof.
-  intros c. unfold ch_fixed_esc.
-  destruct (N.eqb_spec c 92) as [->|H92]; [reflexivity|].
-  destruct (N.eqb_spec c 39) as [->|H39]; [reflexivity|].
-  unfold esc_from, step_fn. simpl. neq c 92. simpl. neq c 39. reflexivity.
-Qed.
-
-Lemma ch_fixed_char : forall c tail, ch_body (ch_fixed_esc c ++ tail) = push c (ch_body tail).
-Proof.
-  intros c tail. unfold ch_fixed_esc.
-  destruct (N.eqb_spec c 92) as [->|H92]; [reflexivity|].
-  destruct (N.eqb_spec c 39) as [->|H39]; [reflexivity|].
-  simpl. neq c 39. neq c 92. reflexivity.
-Qed.
-
-Theorem proposed_ClickHouse_roundtrip : forall s rest, no_quote_start 39 rest ->
-  lex_ch (emit_of proposed_ClickHouse s ++ rest) = Some (s, rest).
-Proof.
-  intros s rest H. unfold proposed_ClickHouse. rewrite emit_wrap_chars by reflexivity.
-  rewrite (flat_map_ext _ _ ch_fixed_esc_ok). simpl. rewrite <- app_assoc. simpl.
-  apply (body_roundtrip ch_body ch_fixed_esc (fun _ => True) 39); auto.
-  - intros. apply ch_fixed_char.
-  - apply close_39. intros t. reflexivity.
-  - apply Forall_True.
-Qed.
-
 (* Databricks:  '"%s"' % s.replace('\\','\\\\').replace('"','\\"').replace('\n','\\n').replace('\r','\\r').replace('\t','\\t') *)
 Definition proposed_Databricks : emit_kind :=
   Wrap [34] [34] [([92], [92; 92]); ([34], [92; 34]); ([10], [92; 110]); ([13], [92; 114]); ([9], [92; 116])].
